@@ -39,10 +39,6 @@ structure LTables where
 
 /-! ## writer: the calls -/
 
-/-- `StringDictionary::ArchiveString`, write side -/
-def keyCalls : Option Bytes → List Item
-  | none => [.prim .byte 0]
-  | some bs => [.prim .byte 1, .str bs]
 
 /-- `con::Archive(arc, container, ArchiveListenerPtr)`: `num`, then every element -/
 def conListCalls (ls : List Lbl) : List Item := .prim .u32 ls.length :: ls.map (.ptr true ·)
@@ -74,10 +70,6 @@ def listenerCalls (st : LTables) : List Item :=
 /-- `sizeof(SafePtr<Listener>)` (vtable pointer, object, prev, next) -/
 def safePtrSize : Nat := 32
 
-/-- `StringDictionary::ArchiveString`, load side up to the text (`uint8_t hasString;` is uninitialised) -/
-def readKey (cfg : Cfg) (s : RS) : Res (Option Bytes) :=
-  (readData cfg (Prim.byte).tag 1 none s).bind fun hb s =>
-    if unle hb = 0 then .ok none s else (readStr cfg [] s).bind fun bs s => .ok (some bs) s
 
 /-- the loop `for (i = 1; i <= num; i++) ArchiveFunc(arc, container.ObjectAt(i))` with `ArchiveSafePointer` -/
 def readPtrs (cfg : Cfg) : Nat → RS → Res (List Nat)
